@@ -283,3 +283,66 @@ Example fixed_shrink_same_witness :
   abs pM (snd (shrink_to_fit pM pTH pPG pOV 170 true (abc1 true 0) 4294967295)) = [97; 98; 99] /\
   abs pM (snd (shrink_to_fit pM pTH pPG pOV 170 true (long17 true) 4294967295)) = repN 97 17.
 Proof. vm_compute. split; reflexivity. Qed.
+
+(* ------------------------------------------------------------------ instantiation at the translated constants *)
+
+Notation cM := c_STRING_MAX_SHORT_LENGTH (only parsing).
+Notation cTH := c_string_small_growth_threshold (only parsing).
+Notation cPG := c_string_page_size (only parsing).
+Notation cOV := c_string_malloc_overhead (only parsing).
+
+Definition c17_exec_refines jk := exec_refines cM cTH cPG cOV jk cM_pos cTH_ge cPG_pos cPG_le cOV_lt cM_le.
+Definition c17_step_refines jk := StrRefine.step_refines cM cTH cPG cOV jk cM_pos cTH_ge cPG_pos cPG_le cOV_lt cM_le.
+Definition c17_storage_irrelevant jk := storage_irrelevant cM cTH cPG cOV jk cM_pos cTH_ge cPG_pos cPG_le cOV_lt cM_le.
+Definition c17_alias_eq jk := alias_eq cM cTH cPG cOV jk cM_pos cTH_ge cPG_pos cPG_le cOV_lt cM_le.
+Definition c17_flatten_roundtrip jk := flatten_roundtrip cM cTH cPG cOV jk cM_pos cTH_ge cPG_pos cPG_le cOV_lt cM_le.
+Definition c17_unflatten_rejects jk := unflatten_rejects_unterminated cM cTH cPG cOV jk cM_pos cTH_ge cPG_pos cPG_le cOV_lt cM_le.
+Definition c17_prealloc_value_safe jk := prealloc_value_safe cM cTH cPG cOV jk cM_pos cTH_ge cPG_pos cPG_le cOV_lt cM_le.
+Definition c17_shrink_value_safe jk := shrink_value_safe cM cTH cPG cOV jk cM_pos cTH_ge cPG_pos cPG_le cOV_lt cM_le.
+
+(* a default-constructed String is in the domain *)
+Lemma c17_empty_ok jk : inv cM (empty1 cM jk) /\ abs cM (empty1 cM jk) = [] /\ is_long (empty1 cM jk) = false.
+Proof. destruct (StrCore.inv_empty1 cM cTH cPG cOV jk cM_pos cTH_ge cPG_pos cPG_le cOV_lt cM_le) as (A & _ & B & C). now splits. Qed.
+
+(* every script started from the default-constructed String *)
+Lemma c17_from_empty jk ops :
+  run_ok [] ops ->
+  let r := exec1 cM cTH cPG cOV jk true (empty1 cM jk) ops in
+  inv cM (fst r) /\ abs cM (fst r) = fst (exec0 [] ops) /\ map (abs_out cM) (snd r) = snd (exec0 [] ops).
+Proof.
+  intros R r. destruct (c17_empty_ok jk) as (I & A & _).
+  destruct (c17_exec_refines jk ops (empty1 cM jk) I) as (X1 & _ & X3 & X4 & _); rewrite ?A; trivial; [constructor|].
+  unfold r. rewrite A in *. now splits.
+Qed.
+
+(* ------------------------------------------------------------------ non-vacuity *)
+
+Ltac decide_ok :=
+  vm_compute;
+  repeat match goal with
+         | |- _ /\ _ => split
+         | |- True => exact I
+         | |- Forall _ _ => constructor
+         | |- _ = _ => reflexivity
+         | |- _ -> False => let H := fresh in intros H; discriminate H
+         end.
+
+(* a script that crosses the small-buffer boundary with aliased operands is in the domain of the theorems:
+   "abcdefgh"; s += s()+3; s += s; s = s.Substring(1,20); Prealloc(100); ShrinkToFit(); Replace(s, "xy"); s.Arg(s) *)
+Definition ex_ops : list op :=
+  [OSetCstr (CLit [97;98;99;100;101;102;103;104]) NOLIMIT; OAppendC (CSelf 3); OAppendS ASelf; OAssign (OSubstring 1 20);
+   OPrealloc 100; OShrink 0; OReplaceS ASelf (ALit [37;49;120;121]) NOLIMIT 0; OAssign (OArgS ASelf); OFlatten].
+Example ex_run_ok : run_ok [] ex_ops.
+Proof. decide_ok. Qed.
+Example ex_run_nontrivial :
+  let r := exec1 cM cTH cPG cOV 170 true (empty1 cM 170) ex_ops in
+  is_long (fst r) = false /\ abs cM (fst r) = [37;49;120;121;120;121] /\
+  existsb (fun o => match o with R1Str x => is_long x | _ => false end) (snd r) = true.
+Proof. vm_compute. repeat split. Qed.
+(* the premises of storage_irrelevant / alias_eq / flatten_roundtrip are met by a small-buffer and a heap String
+   holding the same bytes *)
+Example ex_two_modes :
+  let s1 := abc1 true 0 in let s2 := abc1 true 40 in
+  inv pM s1 /\ inv pM s2 /\ is_long s1 = false /\ is_long s2 = true /\ abs pM s1 = abs pM s2 /\ nulfree (abs pM s1) /\
+  op_ok (abs pM s1) (OAppendC (CSelf 1)) /\ slen pM s1 + 1 < LIM.
+Proof. decide_ok. Qed.
